@@ -81,6 +81,24 @@ def check_mirror(chk, A, B, kind, stats):
                     chk.fail(f"mirror:{kind}:positions", "the grid of the reflected equilibrium is not the reflected grid with the y order reversed (equal R, negated Z)",
                              {"grids": [A.name, B.name], "region": ra["name"], "mirror_region": nm, "loc": loc, "field": k, "index": [int(p[0]), int(p[1])], "difference": float(dd[p])})
                     break
+        # the RUNNING fields (measured from the start of the y-chain, which is the other end in the mirror image): value + reversed mirror value is the
+        # same all along each flux surface of the region (theorems C16_distance_under_y_reversal / C16_integral_under_y_reversal)
+        for k in ("poloidal_distance", "zShift"):
+            if k not in Aa or k not in Ab:
+                continue
+            for loc in ("ylow", "centre", "xlow", "corners"):
+                if loc not in Aa[k] or loc not in Ab[k]:
+                    continue
+                ssum = Aa[k][loc] + flip(Ab[k][loc])
+                if not np.all(np.isfinite(ssum)):
+                    continue
+                spread = float(np.max(np.ptp(ssum, axis=1)))
+                sc = max(1.0, float(np.max(np.abs(Aa[k][loc]))))
+                n += ssum.size
+                stats["running"] = max(stats.get("running", 0.0), spread / sc)
+                if spread > 1e-6 * sc:      # (observed <= 2.4e-9; a chain started from the wrong place is off by a cell's increment)
+                    chk.fail(f"mirror:{kind}:running:{k}", f"{k} of the reflected equilibrium's grid is not 'constant minus the reversed {k}' of the grid along a flux surface",
+                             {"grids": [A.name, B.name], "region": ra["name"], "mirror_region": nm, "loc": loc, "spread_along_y": spread})
         if float(ra["bpsign"]) != float(rb["bpsign"]):
             chk.fail(f"mirror:{kind}:bpsign", "a grid and its mirror image have different signs of Bp", {"grids": [A.name, B.name], "region": ra["name"]})
         for k in MAG_FIELDS:
@@ -187,7 +205,7 @@ def run(chk):
     chk.trust("translate/options.py (option pre-processing blocks), translate/geom1.py, translate/metric.py, translate/fields.py, translate/topo.py (connection tables, topology integers)",
               "CONTRACT: with positions fixed, the remaining inputs of calcMetric transform as stated (Bpxy, bpsign, dphidy, cosBeta change sign under current reversal; tanBeta does not) -- "
               "monitored on the corpus pair lsn_nonorth / lsn_neg_nonorth; contour following is deterministic in its inputs (mirror pairs agree to 2e-6 m)")
-    chk.assume("cells touching an X-point are excluded from the magnitude comparison of mirror pairs (amplified tolerance differences); zShift / poloidal_distance of mirror pairs are not compared (they run from the other end)")
+    chk.assume("cells touching an X-point are excluded from the magnitude comparison of mirror pairs (amplified tolerance differences); zShift / poloidal_distance of mirror pairs run from the other end: value + reversed mirror value is compared for constancy along each flux surface")
     chk.coq()
     # (+ a non-orthogonal up-down symmetric double null whose outer targets are so oblique that contours are extended to reach the wall: the leg that ENDS on the wall is the
     # mirror image of one that STARTS on it, so the two near-identical blocks of addPointAtWallToContours are compared with each other)
